@@ -37,7 +37,7 @@ PROPS = {
                     {'kind': 'unit', 'name': 'concevents', 'hcmd': 'conc-events', 'dcmd': 'concevents', 'quick': 120, 'thorough': 6000, 'chunk': 10, 'args': []}],
     },
     'C07': {
-        'modules': ['OtterVerif.Props.C07', 'OtterVerif.Props.C06Conc'],
+        'modules': ['OtterVerif.Props.C07', 'OtterVerif.Props.C06Conc', 'OtterVerif.Props.C04Gen', 'OtterVerif.Pin.Policy'],
         'engines': [seq(['bound', 'mix', 'expiry', 'huge'], 400, 12000, lambda f: f['class'] == 'events'),
                     # which entries the size policy removes, replayed on the model after every call (incl. weights near 2^32)
                     {'kind': 'unit', 'name': 'policy', 'hcmd': 'unit-policy', 'dcmd': 'policy', 'quick': 60, 'thorough': 3000, 'chunk': 5},
@@ -107,7 +107,7 @@ def unit(name, quick, thorough, chunk=10, args=None):
 
 
 PROPS['C18'] = {
-    'modules': ['OtterVerif.Props.C18'],
+    'modules': ['OtterVerif.Props.C18', 'OtterVerif.Props.C04Gen', 'OtterVerif.Pin.Policy'],
     'engines': [unit('sketch', 42, 1400, chunk=3),
                 # "a new arrival displaces the victim only if its estimate is strictly greater": the eviction decisions of the real
                 # policy (which consults the real sketch) are replayed on the model after every call
@@ -161,12 +161,12 @@ POLICY_RULE = ('UNIT-policy: add/update/delete/access/setMaximum/evictNodes/clim
                'audit after every call: linked = mapped, no dead node linked, counters = weight sums, bound after evictNodes. CONC-policy: 2-8 goroutines rewriting/invalidating/reading 2-9 keys of a small cache, '
                'audit at every quiescent point. SEQ: bound/size/wsize/hottest/coldest oracles incl. deferred executor with rewrites before maintenance. distinct = distinct transcripts with >= 10 lines')
 PROPS['C04'] = {
-    'modules': ['OtterVerif.Props.C04'],
+    'modules': ['OtterVerif.Props.C04', 'OtterVerif.Props.C04Gen', 'OtterVerif.Pin.Policy'],
     'engines': POLICY_ENGINES + [seq(['bound', 'deferredk1', 'mix'], 240, 9000, lambda f: f['class'] in ('C04',) or f['op'] == 'op_bound')],
     'rule': POLICY_RULE, 'trusted': UNIT_TRUST + CONC_TRUST + SEQ_TRUST[1:],
 }
 PROPS['C05'] = {
-    'modules': ['OtterVerif.Props.C04', 'OtterVerif.Props.C05'],
+    'modules': ['OtterVerif.Props.C04', 'OtterVerif.Props.C05', 'OtterVerif.Props.C04Gen', 'OtterVerif.Pin.Policy'],
     'engines': POLICY_ENGINES + [seq(['bound', 'deferredk1', 'deferred'], 240, 9000, lambda f: f['class'] in ('C05',)),
                                  # "no entry present but unknown to the expiration policy": an entry the timer wheel does not know is never swept
                                  seq(['huge', 'expiry'], 160, 6000, lambda f: f['class'] in ('C05', 'C13'))],
